@@ -17,7 +17,7 @@ RULE = ("seeded consistently typed feature-structure pairs (depth <=2, atomic / 
 ASSUMPTIONS = ["feature structures are consistently typed (a feature is atomic everywhere or complex everywhere)",
                "bounded comparison: words of length <= 4", "FCFG.contains runs under a line-event budget"]
 ATOMIC = {"N": ["sg", "pl"], "P": ["1", "3"]}
-BUDGET = 1500000
+BUDGET = 12000000
 
 
 # ---------------------------------------------------------------------------- feature structures
